@@ -1,7 +1,7 @@
 From Coq Require Import List NArith ZArith Bool Lia Permutation.
 From Coq Require Import ZifyBool ZifyN ZifyNat.
 From Coq.Strings Require Import Byte.
-Require Import GV.Base.Res GV.Base.Byt GV.Base.Ints GV.Model.Leb GV.Model.Prim GV.Spec.CfaSpec GV.Model.CfiRun.
+Require Import GV.Base.Res GV.Base.Byt GV.Base.Ints GV.Spec.LebSpec GV.Model.Leb GV.Model.Prim GV.Spec.CfaSpec GV.Model.CfiRun.
 Import ListNotations.
 Local Open Scope N_scope.
 Local Arguments N.add : simpl never.
@@ -1866,3 +1866,251 @@ Theorem history_fresh_thm dbg c (h : list use) (cx cx0 : ctx) :
 Proof.
   intros H. rewrite (history_independent_thm dbg c h cx cx0). unfold run_fresh. rewrite H. reflexivity.
 Qed.
+
+(* ---------- L: instruction decoding round trip ---------- *)
+
+Lemma N_sweep (n : nat) (P : N -> bool) :
+  forallb P (map N.of_nat (seq 0 n)) = true -> forall x, x < N.of_nat n -> P x = true.
+Proof.
+  intros H x Hx. rewrite forallb_forall in H. apply H.
+  apply in_map_iff. exists (N.to_nat x). split; [apply N2Nat.id|].
+  apply in_seq. lia.
+Qed.
+
+Lemma hi_bits d : d < 64 ->
+  (N.land (64 + d) 192 = 64 /\ N.land (64 + d) 63 = d) /\
+  (N.land (128 + d) 192 = 128 /\ N.land (128 + d) 63 = d) /\
+  (N.land (192 + d) 192 = 192 /\ N.land (192 + d) 63 = d).
+Proof.
+  intros Hd.
+  pose proof (N_sweep 64 (fun d => (N.land (64 + d) 192 =? 64) && (N.land (64 + d) 63 =? d) &&
+                                   (N.land (128 + d) 192 =? 128) && (N.land (128 + d) 63 =? d) &&
+                                   (N.land (192 + d) 192 =? 192) && (N.land (192 + d) 63 =? d))
+                      ltac:(vm_compute; reflexivity) d Hd) as H.
+  cbv beta in H. lia.
+Qed.
+
+Lemma le_enc_length n v : length (le_enc n v) = n.
+Proof. revert v. induction n as [|n IH]; intros v; cbn [le_enc length]; [reflexivity|]. rewrite IH. reflexivity. Qed.
+
+Lemma le_val_le_enc : forall n v, le_val (le_enc n v) = v mod 256 ^ N.of_nat n.
+Proof.
+  induction n as [|n IH]; intros v.
+  - cbn. rewrite N.mod_1_r. reflexivity.
+  - cbn [le_enc le_val]. rewrite IH, b2n_n2b.
+    rewrite Nat2N.inj_succ, N.pow_succ_r'.
+    rewrite N.mod_mul_r by (try apply N.pow_nonzero; discriminate). reflexivity.
+Qed.
+
+Lemma take_app n (h rest : list byte) : length h = n -> take n (h ++ rest) = Some (h, rest).
+Proof.
+  revert h. induction n as [|n IH]; intros h Hl.
+  - destruct h; [reflexivity|discriminate].
+  - destruct h as [|b h]; [discriminate|]. cbn [app take]. rewrite IH by (cbn in Hl; lia). reflexivity.
+Qed.
+
+Lemma read_un_fixed n be v rest :
+  v < 256 ^ N.of_nat n -> read_un n be (fixed_enc be n v ++ rest) = Ok (v, rest).
+Proof.
+  intros Hv. unfold read_un, read_bytes, fixed_enc. destruct be.
+  - rewrite take_app by (rewrite rev_length; apply le_enc_length). cbn [bind].
+    unfold be_val. rewrite rev_involutive, le_val_le_enc, N.mod_small by exact Hv. reflexivity.
+  - rewrite take_app by apply le_enc_length. cbn [bind].
+    rewrite le_val_le_enc, N.mod_small by exact Hv. reflexivity.
+Qed.
+
+Section Decode.
+Variable dbg : bool.
+(* what "e is a LEB128 encoding of v" means for the reader being modelled *)
+Definition uleb_enc (e : list byte) (v : N) : Prop := forall rest, read_uleb128 dbg (e ++ rest) = Ok (v, rest).
+Definition sleb_enc (e : list byte) (z : Z) : Prop := forall rest, read_sleb128 dbg (e ++ rest) = Ok (z, rest).
+Hypothesis Hu : forall v, v < two64 -> uleb_enc (enc_uleb v) v.
+Hypothesis Hs : forall z, in_i64 z = true -> sleb_enc (enc_sleb z) z.
+
+Lemma rd_u v rest : v < two64 -> read_uleb128 dbg (enc_uleb v ++ rest) = Ok (v, rest).
+Proof. intros H. apply Hu. exact H. Qed.
+Lemma rd_s z rest : in_i64 z = true -> read_sleb128 dbg (enc_sleb z ++ rest) = Ok (z, rest).
+Proof. intros H. apply Hs. exact H. Qed.
+
+Lemma rd_reg_enc r rest : r < two16 -> rd_reg dbg (enc_uleb r ++ rest) = Ok (r, rest).
+Proof.
+  intros H. unfold rd_reg. rewrite rd_u by (unfold two16, two64 in *; lia). cbn [bind].
+  unfold reg_from_u64, wrap16. rewrite N.mod_small by exact H. rewrite N.eqb_refl. reflexivity.
+Qed.
+
+Lemma rd_expr_enc off all pre e rest :
+  N.of_nat (length e) < two64 ->
+  all = pre ++ blk e ++ rest ->
+  rd_expr dbg off all (blk e ++ rest) =
+    Ok (mkexpr (off + N.of_nat (length pre) + ulen (N.of_nat (length e))) e, rest).
+Proof.
+  intros Hl ->. unfold rd_expr, blk. rewrite <- app_assoc, rd_u by exact Hl. cbn [bind].
+  unfold skip_n. rewrite app_length, Nat2N.inj_add.
+  destruct (N.of_nat (length e) + N.of_nat (length rest) <? N.of_nat (length e)) eqn:E; [lia|].
+  cbn [bind]. rewrite Nat2N.id, skipn_app, skipn_all, Nat.sub_diag. cbn [skipn app].
+  unfold mkexpr, consumed, ulen. f_equal. f_equal. f_equal.
+  rewrite !app_length. lia.
+Qed.
+
+Lemma read_address_enc be asize a rest :
+  valid_asize asize = true -> a < 2 ^ (8 * asize) ->
+  read_address asize be (fixed_enc be (N.to_nat asize) a ++ rest) = Ok (a, rest).
+Proof.
+  intros Hv Ha. unfold read_address.
+  destruct (valid_asize_cases _ Hv) as [-> | [-> | [-> | ->]]]; cbn [N.eqb Pos.eqb];
+    apply read_un_fixed; exact Ha.
+Qed.
+
+Lemma in_i64_and a b : a && b = true -> a = true /\ b = true.
+Proof. apply andb_prop. Qed.
+
+Ltac op_literal k :=
+  unfold parse_insn; cbn [app read_u8 bind]; rewrite (b2n_n2b_small k) by lia; cbv zeta;
+  change (N.land k 192 =? 64) with false; change (N.land k 192 =? 128) with false;
+  change (N.land k 192 =? 192) with false; cbv iota.
+
+Section Cases.
+Variables (be : bool) (asize : N) (aa : bool) (off : N) (rest : list byte).
+Notation P w := (parse_insn dbg be asize aa off (enc_wire be asize w ++ rest)).
+
+Ltac hi_case d Hd sel :=
+  cbn [enc_wire]; rewrite N.mod_small by exact Hd;
+  unfold parse_insn; cbn [app read_u8 bind];
+  match goal with |- context [b2n (n2b ?k)] => rewrite (b2n_n2b_small k) by lia end; cbv zeta.
+
+Lemma dec_adv0 d : d < 64 -> P (WAdvanceLoc0 d) = Ok (IAdvanceLoc d, rest).
+Proof. intros Hd. destruct (hi_bits d Hd) as ((E1 & E2) & _). hi_case d Hd 1. rewrite E1, E2. reflexivity. Qed.
+Lemma dec_off0 r fo : r < 64 -> fo < two64 -> P (WOffset0 r fo) = Ok (IOffset r fo, rest).
+Proof.
+  intros Hd Hf. destruct (hi_bits r Hd) as (_ & (E1 & E2) & _). hi_case r Hd 2.
+  rewrite E1, E2. cbn [N.eqb Pos.eqb]. rewrite rd_u by exact Hf. reflexivity.
+Qed.
+Lemma dec_res0 r : r < 64 -> P (WRestore0 r) = Ok (IRestore r, rest).
+Proof. intros Hd. destruct (hi_bits r Hd) as (_ & _ & (E1 & E2)). hi_case r Hd 3. rewrite E1, E2. reflexivity. Qed.
+
+Lemma dec_nop : P WNop = Ok (INop, rest).
+Proof. cbn [enc_wire]. op_literal 0. reflexivity. Qed.
+Lemma dec_setloc a : valid_asize asize = true -> a < 2 ^ (8 * asize) -> P (WSetLoc a) = Ok (ISetLoc a, rest).
+Proof. intros Hv Ha. cbn [enc_wire]. op_literal 1. cbn [N.eqb Pos.eqb]. rewrite read_address_enc by auto. reflexivity. Qed.
+Lemma dec_adv1 d : d < 256 -> P (WAdvanceLoc1 d) = Ok (IAdvanceLoc d, rest).
+Proof.
+  intros Hd. cbn [enc_wire]. op_literal 2. cbn [N.eqb Pos.eqb].
+  unfold fixed_enc. destruct be; cbn [le_enc rev app read_u8 bind]; rewrite b2n_n2b_small by lia; reflexivity.
+Qed.
+Lemma dec_adv2 d : d < two16 -> P (WAdvanceLoc2 d) = Ok (IAdvanceLoc d, rest).
+Proof.
+  intros Hd. cbn [enc_wire]. op_literal 3. cbn [N.eqb Pos.eqb]. unfold read_u16.
+  rewrite read_un_fixed by (change (256 ^ N.of_nat 2) with 65536; unfold two16 in *; lia). reflexivity.
+Qed.
+Lemma dec_adv4 d : d < two32 -> P (WAdvanceLoc4 d) = Ok (IAdvanceLoc d, rest).
+Proof.
+  intros Hd. cbn [enc_wire]. op_literal 4. cbn [N.eqb Pos.eqb]. unfold read_u32.
+  rewrite read_un_fixed by (change (256 ^ N.of_nat 4) with 4294967296; unfold two32 in *; lia). reflexivity.
+Qed.
+
+Ltac reg_then := cbn [N.eqb Pos.eqb]; rewrite <- ?app_assoc; rewrite rd_reg_enc by assumption; cbn [bind].
+
+Lemma dec_offext r fo : r < two16 -> fo < two64 -> P (WOffsetExtended r fo) = Ok (IOffset r fo, rest).
+Proof. intros Hr Hf. cbn [enc_wire]. op_literal 5. reg_then. rewrite rd_u by exact Hf. reflexivity. Qed.
+Lemma dec_resext r : r < two16 -> P (WRestoreExtended r) = Ok (IRestore r, rest).
+Proof. intros Hr. cbn [enc_wire]. op_literal 6. reg_then. reflexivity. Qed.
+Lemma dec_undef r : r < two16 -> P (WUndefined r) = Ok (IUndefined r, rest).
+Proof. intros Hr. cbn [enc_wire]. op_literal 7. reg_then. reflexivity. Qed.
+Lemma dec_same r : r < two16 -> P (WSameValue r) = Ok (ISameValue r, rest).
+Proof. intros Hr. cbn [enc_wire]. op_literal 8. reg_then. reflexivity. Qed.
+Lemma dec_register d s : d < two16 -> s < two16 -> P (WRegister d s) = Ok (IRegister d s, rest).
+Proof. intros Hd Hs'. cbn [enc_wire]. op_literal 9. reg_then. rewrite rd_reg_enc by assumption. reflexivity. Qed.
+Lemma dec_remember : P WRememberState = Ok (IRememberState, rest).
+Proof. cbn [enc_wire]. op_literal 10. reflexivity. Qed.
+Lemma dec_restore_state : P WRestoreState = Ok (IRestoreState, rest).
+Proof. cbn [enc_wire]. op_literal 11. reflexivity. Qed.
+Lemma dec_defcfa r o : r < two16 -> o < two64 -> P (WDefCfa r o) = Ok (IDefCfa r o, rest).
+Proof. intros Hr Hf. cbn [enc_wire]. op_literal 12. reg_then. rewrite rd_u by exact Hf. reflexivity. Qed.
+Lemma dec_defcfareg r : r < two16 -> P (WDefCfaRegister r) = Ok (IDefCfaRegister r, rest).
+Proof. intros Hr. cbn [enc_wire]. op_literal 13. reg_then. reflexivity. Qed.
+Lemma dec_defcfaoff o : o < two64 -> P (WDefCfaOffset o) = Ok (IDefCfaOffset o, rest).
+Proof. intros Hf. cbn [enc_wire]. op_literal 14. cbn [N.eqb Pos.eqb]. rewrite rd_u by exact Hf. reflexivity. Qed.
+Lemma dec_defcfaexpr e : N.of_nat (length e) < two64 ->
+  P (WDefCfaExpression e) = Ok (wire_meaning off (WDefCfaExpression e), rest).
+Proof.
+  intros He. cbn [enc_wire wire_meaning]. op_literal 15. cbn [N.eqb Pos.eqb].
+  rewrite (rd_expr_enc off _ [n2b 15] e rest) by auto. reflexivity.
+Qed.
+Lemma dec_expr r e : r < two16 -> N.of_nat (length e) < two64 ->
+  P (WExpression r e) = Ok (wire_meaning off (WExpression r e), rest).
+Proof.
+  intros Hr He. cbn [enc_wire wire_meaning]. op_literal 16. reg_then.
+  rewrite (rd_expr_enc off _ (n2b 16 :: enc_uleb r) e rest) by (auto; rewrite <- app_assoc; reflexivity).
+  cbn [bind length].
+  replace (off + N.of_nat (S (length (enc_uleb r)))) with (off + 1 + ulen r) by (unfold ulen; lia).
+  reflexivity.
+Qed.
+Lemma dec_offextsf r o : r < two16 -> in_i64 o = true -> P (WOffsetExtendedSf r o) = Ok (IOffsetExtendedSf r o, rest).
+Proof. intros Hr Hf. cbn [enc_wire]. op_literal 17. reg_then. rewrite rd_s by exact Hf. reflexivity. Qed.
+Lemma dec_defcfasf r o : r < two16 -> in_i64 o = true -> P (WDefCfaSf r o) = Ok (IDefCfaSf r o, rest).
+Proof. intros Hr Hf. cbn [enc_wire]. op_literal 18. reg_then. rewrite rd_s by exact Hf. reflexivity. Qed.
+Lemma dec_defcfaoffsf o : in_i64 o = true -> P (WDefCfaOffsetSf o) = Ok (IDefCfaOffsetSf o, rest).
+Proof. intros Hf. cbn [enc_wire]. op_literal 19. cbn [N.eqb Pos.eqb]. rewrite rd_s by exact Hf. reflexivity. Qed.
+Lemma dec_valoff r o : r < two16 -> o < two64 -> P (WValOffset r o) = Ok (IValOffset r o, rest).
+Proof. intros Hr Hf. cbn [enc_wire]. op_literal 20. reg_then. rewrite rd_u by exact Hf. reflexivity. Qed.
+Lemma dec_valoffsf r o : r < two16 -> in_i64 o = true -> P (WValOffsetSf r o) = Ok (IValOffsetSf r o, rest).
+Proof. intros Hr Hf. cbn [enc_wire]. op_literal 21. reg_then. rewrite rd_s by exact Hf. reflexivity. Qed.
+Lemma dec_valexpr r e : r < two16 -> N.of_nat (length e) < two64 ->
+  P (WValExpression r e) = Ok (wire_meaning off (WValExpression r e), rest).
+Proof.
+  intros Hr He. cbn [enc_wire wire_meaning]. op_literal 22. reg_then.
+  rewrite (rd_expr_enc off _ (n2b 22 :: enc_uleb r) e rest) by (auto; rewrite <- app_assoc; reflexivity).
+  cbn [bind length].
+  replace (off + N.of_nat (S (length (enc_uleb r)))) with (off + 1 + ulen r) by (unfold ulen; lia).
+  reflexivity.
+Qed.
+Lemma dec_argssize n : n < two64 -> P (WArgsSize n) = Ok (IArgsSize n, rest).
+Proof. intros Hf. cbn [enc_wire]. op_literal 46. cbn [N.eqb Pos.eqb]. rewrite rd_u by exact Hf. reflexivity. Qed.
+Lemma dec_negate : P WNegateRaState = if aa then Ok (INegateRaState, rest) else Err EUnknownCallFrameInstruction.
+Proof. cbn [enc_wire]. op_literal 45. cbn [N.eqb Pos.eqb andb]. destruct aa; reflexivity. Qed.
+End Cases.
+
+Theorem insn_decode_gen be asize aa off w rest :
+  valid_asize asize = true -> wire_ok asize w = true ->
+  parse_insn dbg be asize aa off (enc_wire be asize w ++ rest) =
+    match w with
+    | WNegateRaState => if aa then Ok (wire_meaning off w, rest) else Err EUnknownCallFrameInstruction
+    | _ => Ok (wire_meaning off w, rest)
+    end.
+Proof.
+  intros Hv Hw.
+  destruct w; cbn [wire_ok] in Hw;
+    repeat match type of Hw with
+           | _ && _ = true => apply andb_prop in Hw; let H1 := fresh "Hw" in destruct Hw as [H1 Hw]
+           end;
+    unfold regb, u64b, i64b in *; cbn [wire_meaning].
+  - apply dec_adv0; lia.
+  - apply dec_off0; lia.
+  - apply dec_res0; lia.
+  - apply dec_nop.
+  - apply dec_setloc; [exact Hv|lia].
+  - apply dec_adv1; lia.
+  - apply dec_adv2; lia.
+  - apply dec_adv4; lia.
+  - apply dec_offext; lia.
+  - apply dec_resext; lia.
+  - apply dec_undef; lia.
+  - apply dec_same; lia.
+  - apply dec_register; lia.
+  - apply dec_remember.
+  - apply dec_restore_state.
+  - apply dec_defcfa; lia.
+  - apply dec_defcfareg; lia.
+  - apply dec_defcfaoff; lia.
+  - apply dec_defcfaexpr; lia.
+  - apply dec_expr; lia.
+  - apply dec_offextsf; [lia|exact Hw].
+  - apply dec_defcfasf; [lia|exact Hw].
+  - apply dec_defcfaoffsf; exact Hw.
+  - apply dec_valoff; lia.
+  - apply dec_valoffsf; [lia|exact Hw].
+  - apply dec_valexpr; lia.
+  - apply dec_argssize; lia.
+  - apply dec_negate.
+Qed.
+End Decode.
